@@ -68,9 +68,21 @@ def _run_impl(case):
     import warnings
     warnings.simplefilter('ignore', RuntimeWarning)     # 0/0 and x/0 in zoom's factor are replaced by 1 by the wrapper
     k = case['kind']
-    A = _arr(case)
-    Al = gen.relayout(A, case.get('layout', 'C'))
+    if case.get('_array') is not None:
+        Al = case['_array']
+    else:
+        A = _arr(case)
+        Al = gen.relayout(A, case.get('layout', 'C'))
     before = Al.copy()
+    if case.get('_hist') and k != 'badout' and Al.flags.writeable and Al.size > 1:
+        # the caller reuses its array: the same object first holds other content (its own, reversed) for one call whose
+        # result is discarded, is refilled in place, and only then the judged call is made
+        Al[...] = before.ravel()[::-1].reshape(before.shape)
+        try:
+            _run_impl(dict(case, _hist=0, _array=Al))
+        except Exception:  # noqa
+            pass
+        Al[...] = before
     r = {}
     try:
         if k == 'shift':
